@@ -13,7 +13,7 @@ PROPS = {
                 text="Finite logs of messages, pts-bearing non-message updates, qts updates and channel updates are pushed with loss/duplication/reordering; recovery is forced and "
                      "its completion decided by explicit barriers through every queue of the library (no timers); every log entry not covered by a reported too-long must have "
                      "reached the handler. The fake server answers differences like Telegram (other_updates carry their real pts/pts_count/qts).",
-                note="Trusted: the fake server as a model of Telegram's difference answers. Logs, loss patterns and slicing are sampled.",
+                note="Trusted: the fake server as a model of Telegram's difference answers (self-initiated entries announced through HandleAffected are only covered by a difference's state, never listed). Logs, loss patterns and slicing are sampled.",
                 watchdog={"quick": 900, "thorough": 5400}),
     "C03": dict(engine="updmgr", race=True, level="fault_enumeration", design="C03",
                 technique="runtime monitor on a recording StateStorage (online invariant at every write) + crash/restart experiment from the storage image after every write",
